@@ -557,6 +557,8 @@ impl AsRawFd for Driver {
 
 impl Drop for Driver {
     fn drop(&mut self) {
+        #[cfg(compio_verif)]
+        crate::verif::emit(crate::verif::DROP_BEGIN, 0, 0);
         for fd in self.registry.keys() {
             unsafe {
                 let fd = BorrowedFd::borrow_raw(*fd);
